@@ -140,6 +140,13 @@ CHECKS = {
         "trusted: mc/ref/sf_split.py (selftested; cross-checked against the composition of every text); not demanded: message text, cursors of statements before a failing one, // comments, remove_comments",
         "bounded exhaustive enumeration (finite input product) with a differential oracle (execute_string vs one-by-one execution) and an independent reference splitter",
     ),
+    "C02": (
+        "E2-product",
+        "exploration",
+        "115 statement templates of every kind in the quantifier, each tokenised with sqlglot's Snowflake tokenizer; complete enumeration of the case re-spellings of the foldable tokens (quick: all-lower/ALL-UPPER/Capitalised/aLtErNaTiNg + every single-token flip + quoted-UPPER spellings of every name; thorough: all 2^t lower/UPPER assignments for t<=10, single and pair flips above, every subset of quoted names) executed after a fixed prelude and followed by a fixed postlude; the complete outcome (status, names, rows, rowcount, context, raw-DuckDB digest, postlude) must equal that of the all-lower spelling, plus a reporting sweep against a hand-written names model (unquoted -> upper, quoted verbatim)",
+        "trusted: the tokenizer for token boundaries (selftested), mc/ref/sf_ident.py names model; not demanded: message text, names of unaliased expressions, row order without ORDER BY, distinctness of \"t\" and T",
+        "bounded exhaustive enumeration of re-spellings (metamorphic/differential oracle against the all-lower spelling) plus a reference names model",
+    ),
 }
 
 NOT_BUILT = "check not built yet in this round (planned per DESIGN.md §3); no claim is made"
